@@ -243,11 +243,26 @@ def path(c, job):
     else:
         active = False
         started = False
+
+        def pick(i):
+            """(re-)select on the chooser before a start(); the dashboard string, when it names a mode, wins."""
+            ck2 = choose_keys[c.choose(f"chooser{i}", len(choose_keys))]
+            s.chooser.selected = None if ck2 == "<default>" else ck2
+            key = s.chooser.default if ck2 == "<default>" else ck2
+            if env.sd.get("Auto Selector") in keys:
+                key = env.sd["Auto Selector"]
+            return None if key == "None" else [cn for cn in healthy if names[cn] == key][0]
+
         for i in range(cfg["K"]):
             env.advance(i)
-            menu = ["periodic", "disable"] if active else (["start", "disable"] + (["periodic"] if started else []))
+            menu = ["periodic", "disable", "start"] if active else (["start", "disable"] + (["periodic"] if started else []))
             op = menu[c.choose(f"op{i}", len(menu))]
             if op == "start":
+                if started:
+                    c.reach("second-period")
+                    if active:
+                        c.reach("start-without-disable")
+                    chosen = pick(i)
                 s.start()
                 active = started = True
                 if chosen:
@@ -269,12 +284,16 @@ def path(c, job):
     else:
         c.reach("none-chosen")
     c.prove("C14.life exact-callback-sequence-to-the-chosen-mode-only", got == exp, info=dict(got=got, expected=exp, chosen=chosen))
-    ts = [e[2] for e in reg.LOG if e[0] == "on_iteration"]
-    for a, b in zip(ts, ts[1:]):
-        c.reach("two-iterations")
-        c.prove("C14.life elapsed-time-non-decreasing", b >= a)
-    for t in ts[:1]:
-        c.prove("C14.life elapsed-time-non-negative", t >= 0)
+    prev = None
+    for e in reg.LOG:
+        if e[0] == "on_iteration":
+            c.prove("C14.life elapsed-time-non-negative", e[2] >= 0)
+            if prev is not None:
+                c.reach("two-iterations")
+                c.prove("C14.life elapsed-time-non-decreasing", e[2] >= prev)
+            prev = e[2]
+        elif e[0] == "on_enable":
+            prev = None
 
 
 _CUR = {}
@@ -310,7 +329,7 @@ class C14(Spec):
     stubs = ["wpilib.SendableChooser: returns the selected option, else the default option", "SmartDashboard.getString returns the stored string or the default",
              "DriverStation.isFMSAttached: symbolic, constant per run", "wpilib.Timer on a symbolic non-decreasing clock", "loop stubs (refreshData / notifier) for run()"]
     assumptions = ["one worker process owns its temporary package directory (module files are toggled per job)"]
-    outside = ["classes re-exported between modules", "non-.py modules / namespace packages", "periodic() before the first start()", "start() while a period is active"]
+    outside = ["classes re-exported between modules", "non-.py modules / namespace packages", "periodic() before the first start()"]
 
     # each job toggles files in the per-process package directory: jobs must not interleave inside one process
     def jobs(self, tier):
@@ -327,7 +346,7 @@ class C14(Spec):
 
     def reach_required(self, tier):
         return ["package-missing", "faulty-no-fms", "tolerated-with-fms", "healthy-package", "one-default", "dashboard-selects", "run-period",
-                "periodic-after-disable", "mode-chosen", "none-chosen", "two-iterations"]
+                "periodic-after-disable", "mode-chosen", "none-chosen", "two-iterations", "second-period", "start-without-disable"]
 
     def path_fn(self, c, job):
         path(c, job)
